@@ -24,7 +24,7 @@ class BudgetExceeded(Exception):
 
 
 def set_budget(seconds):
-    BUDGET['deadline'] = None if seconds is None else _time.time() + seconds
+    BUDGET['deadline'] = None if seconds is None else _time.process_time() + seconds   # CPU time, load independent
 
 
 
@@ -103,7 +103,7 @@ def pmul(a, b):
             raise BudgetExceeded(f'polynomial product {len(a)} x {len(b)} terms')
     dl = BUDGET['deadline']
     for m1, c1 in a.items():
-        if dl is not None and _time.time() > dl:
+        if dl is not None and _time.process_time() > dl:
             raise BudgetExceeded('normaliser time budget exceeded')
         for m2, c2 in b.items():
             m, f = mmul(m1, m2)
